@@ -37,6 +37,20 @@ META = dict(
 )
 
 
+_go_build = vlib.go_build
+
+
+def _go_build_tagged(ctx, moddir, pkg, outname, tags='verif', race=False):
+    """Trees that carry hook H4b (src/core/verif_c19_boot.go) get the harness built with the extra
+    tag c19boot (first-boot crash points); on other trees those ops are not generated."""
+    if outname == 'c19' and tags and os.path.exists(os.path.join(ctx.repo, 'src', 'core', 'verif_c19_boot.go')):
+        tags = tags + ',c19boot'
+    return _go_build(ctx, moddir, pkg, outname, tags=tags, race=race)
+
+
+vlib.go_build = _go_build_tagged
+
+
 def gen(ctx):
     """T-gen: re-extract the write discipline of save/remove/AddGroup and the writer/caller
     inventory from src/core/*.go of the working tree into Generated/GroupChainFacts.lean."""
